@@ -18,6 +18,7 @@ func main() {
 	reps, _ := strconv.Atoi(os.Args[3])
 	all := scn.All(os.Args[4] == "1")
 	s := all[idx]
+	scn.RecordNotifications = false // (no lock of the harness between the goroutines)
 	for r := 0; r < reps; r++ {
 		scn.Setup(fib, s)
 		var wg sync.WaitGroup
